@@ -246,3 +246,258 @@ Proof.
     + apply downs_sub_same. autorewrite with sub. reflexivity.
     + intros _. autorewrite with sub. reflexivity.
 Qed.
+
+(* ---- the actor's own queued action *)
+
+Definition downs_from (m : nat) (w w' : world) : Prop :=
+  forall d', In d' (c_down (w_cl w' m)) ->
+    (exists d0, In d0 (c_down (w_cl w m)) /\ d_id d0 = d_id d' /\ d_remote d0 = d_remote d') \/
+    (d_remote d' < w_nup w /\ uo_closed (w_up w (d_remote d')) = false).
+
+Lemma close_down_conn_own : forall m id msg w,
+  c_queue (w_cl (close_down_conn m id msg w) m) = c_queue (w_cl w m) /\
+  c_group (w_cl (close_down_conn m id msg w) m) = c_group (w_cl w m) /\
+  c_dead (w_cl (close_down_conn m id msg w) m) = c_dead (w_cl w m) /\
+  c_down (w_cl (close_down_conn m id msg w) m) = remove_down id (c_down (w_cl w m)).
+Proof.
+  intros. unfold close_down_conn. destruct msg; autorewrite with sub; rewrite Nat.eqb_refl; repeat split.
+Qed.
+
+Lemma remove_down_comm_none : forall a b l, get_down a (remove_down b (remove_down a l)) = None.
+Proof.
+  intros. apply get_down_none. intro H. apply in_map_iff in H. destruct H as [d [E H]].
+  apply in_remove_down in H. destruct H as [H _]. apply in_remove_down in H. tauto.
+Qed.
+
+Lemma push_own : forall m id up ts r w g,
+  Inv w -> action_ok w m (APush g id up ts r) -> c_group (w_cl w m) = Some g ->
+  let w' := fst (push_down_conn m id up ts r w) in
+  c_queue (w_cl w' m) = c_queue (w_cl w m) /\
+  c_group (w_cl w' m) = c_group (w_cl w m) /\
+  c_dead (w_cl w' m) = c_dead (w_cl w m) /\
+  downs_from m w w' /\
+  (forall kid, kid <> 0 -> ((id = kid /\ up = None) \/ r = kid) -> get_down kid (c_down (w_cl w' m)) = None).
+Proof.
+  intros m id up ts r w g I Ha Hg. unfold push_down_conn.
+  set (w1 := if Nat.eqb r 0 then w else del_down m r w).
+  assert (Q1 : c_queue (w_cl w1 m) = c_queue (w_cl w m) /\ c_group (w_cl w1 m) = c_group (w_cl w m) /\
+               c_dead (w_cl w1 m) = c_dead (w_cl w m) /\
+               c_down (w_cl w1 m) = (if Nat.eqb r 0 then c_down (w_cl w m) else remove_down r (c_down (w_cl w m)))).
+  { unfold w1. destruct (Nat.eqb r 0); autorewrite with sub; rewrite ?Nat.eqb_refl; repeat split. }
+  destruct Q1 as [Q1 [G1 [Dd1 D1]]].
+  assert (U1 : w_up w1 = w_up w) by (unfold w1; destruct (Nat.eqb r 0); reflexivity).
+  assert (Sub1 : forall d, In d (c_down (w_cl w1 m)) -> In d (c_down (w_cl w m))).
+  { intros d Hd. rewrite D1 in Hd. destruct (Nat.eqb r 0); [exact Hd|]. apply in_remove_down in Hd. tauto. }
+  assert (Kr : r <> 0 -> get_down r (c_down (w_cl w1 m)) = None).
+  { intro Hr. rewrite D1. destruct (Nat.eqb_spec r 0); [contradiction|]. apply get_down_remove_same. }
+  (* a summary of a final world reached from w1 by closes and updates of existing entries *)
+  set (good := fun w' : world =>
+        c_queue (w_cl w' m) = c_queue (w_cl w m) /\ c_group (w_cl w' m) = c_group (w_cl w m) /\
+        c_dead (w_cl w' m) = c_dead (w_cl w m) /\
+        (forall d', In d' (c_down (w_cl w' m)) ->
+           (exists d0, In d0 (c_down (w_cl w m)) /\ d_id d0 = d_id d' /\ d_remote d0 = d_remote d') \/
+           (d_remote d' < w_nup w /\ uo_closed (w_up w (d_remote d')) = false)) /\
+        (r <> 0 -> get_down r (c_down (w_cl w' m)) = None)).
+  assert (Good1 : good w1).
+  { unfold good. repeat split; auto. intros d' Hd. left. exists d'. auto. }
+  assert (Hdef : forall w', good w' -> good (if Nat.eqb r 0 then w' else close_down_conn m r false w')).
+  { intros w' [A [B [C [D E]]]]. destruct (Nat.eqb_spec r 0); [repeat split; auto|].
+    destruct (close_down_conn_own m r false w') as [X1 [X2 [X3 X4]]].
+    unfold good. rewrite X1, X2, X3, X4. repeat split; auto.
+    - intros d' Hd. apply in_remove_down in Hd. apply D. tauto.
+    - intros _. apply get_down_remove_same. }
+  assert (Hclose : forall w', good w' -> good (close_down_conn m id false w') /\
+             get_down id (c_down (w_cl (close_down_conn m id false w') m)) = None).
+  { intros w' [A [B [C [D E]]]].
+    destruct (close_down_conn_own m id false w') as [X1 [X2 [X3 X4]]]. split.
+    - unfold good. rewrite X1, X2, X3, X4. repeat split; auto.
+      + intros d' Hd. apply in_remove_down in Hd. apply D. tauto.
+      + intro Hr. destruct (Nat.eqb_spec r id); [subst; apply get_down_remove_same|].
+        rewrite get_down_remove_other; auto.
+    - rewrite X4. apply get_down_remove_same. }
+  assert (Final : forall w', good w' ->
+            (forall kid, kid <> 0 -> (id = kid /\ up = None) -> get_down kid (c_down (w_cl w' m)) = None) ->
+            c_queue (w_cl w' m) = c_queue (w_cl w m) /\ c_group (w_cl w' m) = c_group (w_cl w m) /\
+            c_dead (w_cl w' m) = c_dead (w_cl w m) /\ downs_from m w w' /\
+            (forall kid, kid <> 0 -> ((id = kid /\ up = None) \/ r = kid) -> get_down kid (c_down (w_cl w' m)) = None)).
+  { intros w' [A [B [C [D E]]]] F. repeat split; auto.
+    intros kid Hk [X|X]; [apply F; auto|]. subst kid. apply E. exact Hk. }
+  (* closing the stream id, then the deferred close *)
+  assert (CloseCase : forall kid, kid <> 0 -> id = kid ->
+            get_down kid (c_down (w_cl (if Nat.eqb r 0 then close_down_conn m id false w1
+                                         else close_down_conn m r false (close_down_conn m id false w1)) m)) = None).
+  { intros kid Hk <-. destruct (Hclose w1 Good1) as [_ X].
+    destruct (Nat.eqb r 0); [exact X|].
+    destruct (close_down_conn_own m r false (close_down_conn m id false w1)) as [_ [_ [_ X4]]].
+    rewrite X4. destruct (Nat.eqb_spec id r); [subst; apply get_down_remove_same|].
+    rewrite get_down_remove_other; auto. }
+  match goal with |- context [match fst ?s with _ => _ end] => destruct (fst s) as [|i0 sel] eqn:Esel end.
+  - cbn [fst]. apply Final.
+    + apply Hdef. apply Hclose. exact Good1.
+    + intros kid Hk [X _]. apply CloseCase; auto.
+  - destruct up as [u|].
+    2:{ cbn [fst]. apply Final.
+        + apply Hdef. apply Hclose. exact Good1.
+        + intros kid Hk [X _]. apply CloseCase; auto. }
+    assert (NoNone : forall w', forall kid, kid <> 0 -> id = kid /\ Some u = None -> get_down kid (c_down (w_cl w' m)) = None)
+      by (intros w' kid _ [_ X]; discriminate).
+    simpl in Ha. destruct Ha as [A1 [A2 [A3 [A4 [A5 A6]]]]].
+    unfold add_down_conn. rewrite U1.
+    destruct (lookup (uo_id (w_up w u)) (c_up (w_cl w1 m))); [cbn [fst]; apply Final; [apply Hdef; exact Good1|apply NoNone]|].
+    destruct (get_down (uo_id (w_up w u)) (c_down (w_cl w1 m))) as [d0|] eqn:Eg.
+    + rewrite Eg. destruct (replace_tracks d0 _ _) as [changed d'] eqn:Er.
+      destruct (replace_tracks_same _ _ _ _ _ Er) as [R1 [R2 R3]].
+      destruct (get_down_in _ _ _ Eg) as [Hin0 Hid0].
+      assert (Good3 : good (set_down_entry m d' w1)).
+      { destruct Good1 as [A [B [C [D E]]]]. unfold good. autorewrite with sub. rewrite Nat.eqb_refl.
+        repeat split; auto.
+        - intros x Hx. apply in_replace_down in Hx. destruct Hx as [->|[[Hx _]|[Hx _]]].
+          + left. exists d0. repeat split; auto.
+          + apply D. exact Hx.
+          + apply D. exact Hx.
+        - intro Hr. destruct (Nat.eqb_spec r (d_id d')).
+          + (* the entry with id r was deleted: d0 cannot have that id *)
+            exfalso. rewrite R2, Hid0 in e. rewrite <- e in Eg. rewrite (Kr Hr) in Eg. discriminate.
+          + rewrite get_down_replace_other; auto. }
+      destruct changed; cbn [fst]; [|apply Final; [apply Hdef; exact Good3|apply NoNone]].
+      apply Final; [|apply NoNone].
+      destruct (negotiate_own m d' r (set_down_entry m d' w1)) as [NQ [NG [ND [d2 [N1 [N2 N3]]]]]].
+      destruct Good3 as [A [B [C [D E]]]]. unfold good. rewrite NQ, NG, ND, N3. repeat split; auto.
+      * intros x Hx. apply in_replace_down in Hx. destruct Hx as [->|[[Hx _]|[Hx _]]].
+        -- left. exists d0. repeat split; auto; congruence.
+        -- apply D. exact Hx.
+        -- apply D. exact Hx.
+      * intro Hr. destruct (Nat.eqb_spec r (d_id d2)).
+        -- exfalso. rewrite N1, R2, Hid0 in e. rewrite <- e in Eg. rewrite (Kr Hr) in Eg. discriminate.
+        -- rewrite get_down_replace_other; auto.
+    + destruct (uo_closed (w_up w u)) eqn:Ec; [cbn [fst]; apply Final; [apply Hdef; exact Good1|apply NoNone]|].
+      set (dn := mkDown (uo_id (w_up w u)) u None [] false false false).
+      set (w2 := upd_cl m (fun c => set_down (c_down c ++ [dn]) c) w1).
+      assert (Eg2 : get_down (uo_id (w_up w u)) (c_down (w_cl w2 m)) = Some dn).
+      { unfold w2, upd_cl. simpl. rewrite Nat.eqb_refl. simpl. rewrite get_down_app, Eg. simpl.
+        rewrite Nat.eqb_refl. reflexivity. }
+      (* the new stream cannot have the id of the replaced one: that one has ended *)
+      assert (Hnr : r <> 0 -> uo_id (w_up w u) <> r).
+      { intros Hr E. destruct (A6 Hr) as [v [Hv [Hvid Hvc]]].
+        assert (v = u) by (apply (inv_ids _ I); auto; congruence). subst v. congruence. }
+      assert (Good2 : good w2).
+      { destruct Good1 as [A [B [C [D E]]]]. unfold good, w2, upd_cl. simpl. rewrite Nat.eqb_refl. simpl.
+        repeat split; auto.
+        - intros x Hx. apply in_app_iff in Hx. destruct Hx as [Hx|[<-|[]]]; [apply D; exact Hx|].
+          right. simpl. split; [exact A1|exact Ec].
+        - intro Hr. rewrite get_down_app, (E Hr). simpl.
+          destruct (Nat.eqb_spec (uo_id (w_up w u)) r); [exfalso; eapply Hnr; eauto|reflexivity]. }
+      rewrite Eg2. destruct (replace_tracks dn _ _) as [changed d'] eqn:Er.
+      destruct (replace_tracks_same _ _ _ _ _ Er) as [R1 [R2 R3]].
+      assert (Good3 : good (set_down_entry m d' w2)).
+      { destruct Good2 as [A [B [C [D E]]]]. unfold good. autorewrite with sub. rewrite Nat.eqb_refl.
+        repeat split; auto.
+        - intros x Hx. apply in_replace_down in Hx. destruct Hx as [->|[[Hx _]|[Hx _]]].
+          + right. rewrite R1. simpl. split; [exact A1|exact Ec].
+          + apply D. exact Hx.
+          + apply D. exact Hx.
+        - intro Hr. rewrite get_down_replace_other; auto. rewrite R2. simpl. intro X. eapply Hnr; eauto. }
+      destruct changed; cbn [fst]; [|apply Final; [apply Hdef; exact Good3|apply NoNone]].
+      apply Final; [|apply NoNone].
+      destruct (negotiate_own m d' r (set_down_entry m d' w2)) as [NQ [NG [ND [d2 [N1 [N2 N3]]]]]].
+      destruct Good3 as [A [B [C [D E]]]]. unfold good. rewrite NQ, NG, ND, N3. repeat split; auto.
+      * intros x Hx. apply in_replace_down in Hx. destruct Hx as [->|[[Hx _]|[Hx _]]].
+        -- right. rewrite N2, R1. simpl. split; [exact A1|exact Ec].
+        -- apply D. exact Hx.
+        -- apply D. exact Hx.
+      * intro Hr. rewrite get_down_replace_other; auto. rewrite N1, R2. simpl. intro X. eapply Hnr; eauto.
+Qed.
+
+Lemma upd_cl_same : forall h f w, w_cl (upd_cl h f w) h = f (w_cl w h).
+Proof. intros. unfold upd_cl. simpl. rewrite Nat.eqb_refl. reflexivity. Qed.
+
+Definition kills (a : action) (g id : nat) : Prop :=
+  exists id' up ts r, a = APush g id' up ts r /\ ((id' = id /\ up = None) \/ r = id).
+
+Lemma pump_own : forall w m a q,
+  Inv w -> c_queue (w_cl w m) = a :: q -> m < w_n w -> c_dead (w_cl w m) = false ->
+  c_dead (w_cl (step w (OpPump m)) m) = false ->
+  (exists l, c_queue (w_cl (step w (OpPump m)) m) = q ++ l) /\
+  c_group (w_cl (step w (OpPump m)) m) = c_group (w_cl w m) /\
+  downs_from m w (step w (OpPump m)) /\
+  (forall g kid, kid <> 0 -> kills a g kid -> c_group (w_cl w m) = Some g ->
+                 get_down kid (c_down (w_cl (step w (OpPump m)) m)) = None).
+Proof.
+  intros w m a q I Eq Hm Hlive Hlive'. simpl in *.
+  assert (E : Nat.ltb m (w_n w) && negb (c_dead (w_cl w m)) = true).
+  { apply andb_true_intro. split; [apply Nat.ltb_lt; exact Hm|rewrite Hlive; reflexivity]. }
+  rewrite E, Eq in *.
+  set (w0 := upd_cl m (set_queue q) w) in *.
+  assert (I0 : Inv w0).
+  { apply Inv_pop; [exact I|]. intros x Hx. rewrite Eq. right. exact Hx. }
+  assert (Ha0 : action_ok w0 m a).
+  { eapply (action_ok_same_heap w); [reflexivity|reflexivity|].
+    apply (inv_queue _ I). rewrite Eq. left. reflexivity. }
+  assert (F0 : c_queue (w_cl w0 m) = q /\ c_group (w_cl w0 m) = c_group (w_cl w m) /\
+               c_down (w_cl w0 m) = c_down (w_cl w m) /\ c_dead (w_cl w0 m) = c_dead (w_cl w m)).
+  { unfold w0, upd_cl. simpl. rewrite Nat.eqb_refl. simpl. repeat split. }
+  destruct F0 as [Q0 [G0 [D0 Dd0]]].
+  destruct (handle_action m a w0) as [w' e] eqn:Eh. unfold finish in *. cbn [fst snd] in *.
+  destruct e; [rewrite error_close_dead in Hlive'; discriminate|].
+  assert (E' : w' = fst (handle_action m a w0)) by (rewrite Eh; reflexivity). clear Eh. subst w'.
+  assert (Same : forall w1, c_queue (w_cl w1 m) = q ++ [] -> c_group (w_cl w1 m) = c_group (w_cl w0 m) ->
+            c_down (w_cl w1 m) = c_down (w_cl w0 m) -> w_up w1 = w_up w ->
+            (exists l, c_queue (w_cl w1 m) = q ++ l) /\ c_group (w_cl w1 m) = c_group (w_cl w m) /\
+            downs_from m w w1).
+  { intros w1 A B C U. split; [eauto|]. split; [congruence|].
+    intros d' Hd. left. exists d'. rewrite C, D0 in Hd. auto. }
+  destruct a as [g id up ts r|g t id|g give| |]; cbv beta iota zeta delta [handle_action] in *.
+  - destruct (in_group g (w_cl w0 m)) eqn:Hg; cbn [fst] in *.
+    + apply in_group_eq in Hg.
+      destruct (push_own m id up ts r w0 g I0 Ha0 Hg) as [A [B [C [D K]]]].
+      split; [exists []; rewrite app_nil_r; congruence|]. split; [congruence|]. split.
+      * intros d' Hd. destruct (D d' Hd) as [[d0 [X Y]]|X]; [left; exists d0; rewrite <- D0; auto|right; exact X].
+      * intros g' kid Hk [id' [up' [ts' [r' [Ea Hc]]]]] Hg'.
+        injection Ea as E1 E2 E3 E4 E5. subst g' id' up' ts' r'. apply K; auto.
+    + destruct (Same w0) as [A [B C]]; auto; [rewrite app_nil_r; exact Q0|].
+      repeat split; auto.
+      intros g' kid Hk [id' [up' [ts' [r' [Ea Hc]]]]] Hg'.
+      injection Ea as E1 E2 E3 E4 E5. subst g' id' up' ts' r'.
+      exfalso. rewrite <- G0 in Hg'. apply in_group_eq in Hg'. congruence.
+  - assert (Hk : forall g' kid, kills (AReqConns g t id) g' kid -> False).
+    { intros g' kid [id' [up' [ts' [r' [Ea _]]]]]. discriminate. }
+    destruct (in_group g (w_cl w0 m)); cbn [fst] in *.
+    + fold (reqconns_fold g t id (c_up (w_cl w0 m)) w0) in *.
+      destruct (passive_reqconns_fold m g t id (c_up (w_cl w0 m)) w0) as [Hc [l Hq]].
+      destruct (core_fields _ _ Hc) as [G [_ [_ [_ [_ [_ [D _]]]]]]].
+      split; [exists l; rewrite Hq, Q0; reflexivity|]. split; [congruence|]. split.
+      * intros d' Hd. left. exists d'. rewrite D, D0 in Hd. auto.
+      * intros g' kid _ K _. exfalso. eapply Hk; eauto.
+    + destruct (Same w0) as [A [B C]]; auto; [rewrite app_nil_r; exact Q0|].
+      repeat split; auto. intros g' kid _ K _. exfalso. eapply Hk; eauto.
+  - assert (Hk : forall g' kid, kills (AChangePerm g give) g' kid -> False).
+    { intros g' kid [id' [up' [ts' [r' [Ea _]]]]]. discriminate. }
+    destruct (in_group g (w_cl w0 m)); cbn [fst] in *.
+    + split; [|split; [|split]].
+      * exists [APermsChanged]. autorewrite with sub. rewrite Nat.eqb_refl.
+        rewrite upd_cl_same. cbn [c_queue set_present]. rewrite Q0. reflexivity.
+      * autorewrite with sub. rewrite upd_cl_same. cbn [c_group set_present]. exact G0.
+      * intros d' Hd. left. exists d'. autorewrite with sub in Hd. rewrite upd_cl_same in Hd.
+        cbn [c_down set_present] in Hd. rewrite D0 in Hd. auto.
+      * intros g' kid _ K _. exfalso. eapply Hk; eauto.
+    + destruct (Same w0) as [A [B C]]; auto; [rewrite app_nil_r; exact Q0|].
+      repeat split; auto. intros g' kid _ K _. exfalso. eapply Hk; eauto.
+  - assert (Hk : forall g' kid, kills APermsChanged g' kid -> False).
+    { intros g' kid [id' [up' [ts' [r' [Ea _]]]]]. discriminate. }
+    assert (Keep : forall w1, keeps m w0 w1 ->
+              (exists l, c_queue (w_cl w1 m) = q ++ l) /\ c_group (w_cl w1 m) = c_group (w_cl w m) /\
+              downs_from m w w1 /\
+              (forall g kid, kid <> 0 -> kills APermsChanged g kid -> c_group (w_cl w m) = Some g ->
+                 get_down kid (c_down (w_cl w1 m)) = None)).
+    { intros w1 [A [B [C D]]]. split; [exists []; rewrite app_nil_r; congruence|].
+      split; [congruence|]. split.
+      - intros d' Hd. left. exists d'. rewrite A, D0 in Hd. auto.
+      - intros g' kid _ K _. exfalso. eapply Hk; eauto. }
+    destruct (c_group (w_cl w0 m)); cbn [fst] in *; [|apply Keep; apply keeps_refl].
+    destruct (c_present (w_cl w0 m)); cbn [fst] in *; [apply Keep; apply keeps_refl|].
+    apply Keep. apply keeps_unpresent_fold.
+  - assert (Hk : forall g' kid, kills AKick g' kid -> False).
+    { intros g' kid [id' [up' [ts' [r' [Ea _]]]]]. discriminate. }
+    destruct (Same w0) as [A [B C]]; auto; [rewrite app_nil_r; exact Q0|].
+    repeat split; auto. intros g' kid _ K _. exfalso. eapply Hk; eauto.
+Qed.
